@@ -54,6 +54,11 @@ def enumerated(quick: bool, seed: int):
 
 
 CURATED = [
+    # the main program lingers (Wait) in a block that a Watch has ended, while an unrelated Alarm outside that block runs
+    ["Base: s", "Alarm: In > 2 L/h", "    Mark: x", "    Mark: y", "Block: B", "    Watch: In > 2 L/h", "        End block", "    Wait: 2.5s",
+     "Mark: after", "Wait: 1.5s", "Mark: done", ""],
+    ["Base: s", "Macro: M", "    Mark: m1", "    Mark: m2", "Watch: In > 2 L/h", "    Wait: 0.5s", "    Call macro: M", "Block: B",
+     "    Watch: In > 2 L/h", "        End block", "    Wait: 2s", "Mark: after", ""],
     # nested blocks with alarm and watch, End block in a watch body
     ["Base: s", "Block: Outer", "    Mark: o1", "    Block: Inner", "        Mark: i1", "        0.3 End block", "    Mark: o2",
      "    Watch: In > 2 L/h", "        Mark: w", "        End block", "    Wait: 2s", "Mark: after", ""],
